@@ -154,15 +154,26 @@ func specDefaultKnown(t parser.ValueType) bool {
 //@   ensures[C03,C04] elements-once-in-order: err == nil ==> calls(evaluateExpression) == len(instantiation.Values()) && forall(k, 0, len(instantiation.Values()), arg(evaluateExpression, k, 1) == instantiation.Values()[k]) && calls(SliceInstantiation) == 1
 //@   ensures[C03] element-k-is-value-k: err == nil ==> len(arg(SliceInstantiation, 0, 0)) == len(instantiation.Values()) && forall(k, 0, len(instantiation.Values()), arg(SliceInstantiation, 0, 0)[k] == res(evaluateExpression, k, 0).firstValue())
 //
+// A definition or assignment with several values reads all of them before it writes the first
+// variable (a, b = b, a uses the old values): value k is evaluated once, in source order, and --
+// when there is more than one -- copied into the temporary _mv<k>; what is handed on is a reference
+// to that copy.  A single value is handed on as it is.
+//@ func (*transpiler).evaluateAssignedValues
+//@   loop @"range expressions" invariant[C02,C04] evaluated-and-copied-so-far: len(values) == len(expressions) && calls(evaluateExpression) == rangeindex + 1 && forall(k, 0, rangeindex + 1, arg(evaluateExpression, k, 1) == expressions[k] && arg(evaluateExpression, k, 2)) && (len(expressions) <= 1 ==> calls(VarDefinition) == 0 && calls(VarEvaluation) == 0 && forall(k, 0, rangeindex + 1, values[k] == res(evaluateExpression, k, 0).firstValue())) && (len(expressions) > 1 ==> calls(VarDefinition) == rangeindex + 1 && calls(VarEvaluation) == rangeindex + 1 && forall(k, 0, rangeindex + 1, arg(VarDefinition, k, 0) == "_mv" + itoa(k) && arg(VarDefinition, k, 1) == res(evaluateExpression, k, 0).firstValue() && !arg(VarDefinition, k, 2) && arg(VarEvaluation, k, 0) == "_mv" + itoa(k) && arg(VarEvaluation, k, 1) && !arg(VarEvaluation, k, 2) && values[k] == res(VarEvaluation, k, 0) && seq(evaluateExpression, k) < seq(VarDefinition, k) && seq(VarDefinition, k) < seq(VarEvaluation, k)))
+//@   ensures[C02,C13] one-value-per-expression: err == nil ==> len(result0) == len(expressions)
+//@   ensures[C02,C04] every-value-once-in-source-order: err == nil ==> calls(evaluateExpression) == len(expressions) && forall(k, 0, len(expressions), arg(evaluateExpression, k, 1) == expressions[k] && arg(evaluateExpression, k, 2))
+//@   ensures[C02] a-single-value-is-handed-on-as-it-is: err == nil && len(expressions) == 1 ==> calls(VarDefinition) == 0 && result0[0] == res(evaluateExpression, 0, 0).firstValue()
+//@   ensures[C02] several-values-are-copied-before-anything-is-written: err == nil && len(expressions) > 1 ==> calls(VarDefinition) == len(expressions) && calls(VarEvaluation) == len(expressions) && forall(k, 0, len(expressions), arg(VarDefinition, k, 0) == "_mv" + itoa(k) && arg(VarDefinition, k, 1) == res(evaluateExpression, k, 0).firstValue() && !arg(VarDefinition, k, 2) && arg(VarEvaluation, k, 0) == "_mv" + itoa(k) && !arg(VarEvaluation, k, 2) && result0[k] == res(VarEvaluation, k, 0) && seq(evaluateExpression, k) < seq(VarDefinition, k))
+//
 //@ func (*transpiler).evaluateVarDefinition
 //@   requires[C13] one-value-per-variable: len(definition.Values()) == len(definition.Variables())
-//@   loop @"range definition.Variables()" invariant[C01,C04] pairwise-so-far: calls(evaluateExpression) == rangeindex + 1 && calls(VarDefinition) == rangeindex + 1 && forall(k, 0, rangeindex + 1, arg(evaluateExpression, k, 1) == definition.Values()[k] && arg(evaluateExpression, k, 2) && arg(VarDefinition, k, 0) == definition.Variables()[k].Name() && arg(VarDefinition, k, 1) == res(evaluateExpression, k, 0).firstValue() && arg(VarDefinition, k, 2) == definition.Variables()[k].Global())
-//@   ensures[C01,C04] value-k-once-into-variable-k: result == nil ==> calls(evaluateExpression) == len(definition.Variables()) && calls(VarDefinition) == len(definition.Variables()) && forall(k, 0, len(definition.Variables()), arg(evaluateExpression, k, 1) == definition.Values()[k] && arg(evaluateExpression, k, 2) && arg(VarDefinition, k, 0) == definition.Variables()[k].Name() && arg(VarDefinition, k, 1) == res(evaluateExpression, k, 0).firstValue() && arg(VarDefinition, k, 2) == definition.Variables()[k].Global())
+//@   loop @"range definition.Variables()" invariant[C01,C04] value-k-into-variable-k-so-far: calls(evaluateAssignedValues) == 1 && calls(VarDefinition) == rangeindex + 1 && forall(k, 0, rangeindex + 1, arg(VarDefinition, k, 0) == definition.Variables()[k].Name() && arg(VarDefinition, k, 1) == res(evaluateAssignedValues, 0, 0)[k] && arg(VarDefinition, k, 2) == definition.Variables()[k].Global() && seq(evaluateAssignedValues, 0) < seq(VarDefinition, k))
+//@   ensures[C01,C02,C04] all-values-read-then-value-k-into-variable-k: result == nil ==> calls(evaluateAssignedValues) == 1 && arg(evaluateAssignedValues, 0, 1) == definition.Values() && calls(VarDefinition) == len(definition.Variables()) && forall(k, 0, len(definition.Variables()), arg(VarDefinition, k, 0) == definition.Variables()[k].Name() && arg(VarDefinition, k, 1) == res(evaluateAssignedValues, 0, 0)[k] && arg(VarDefinition, k, 2) == definition.Variables()[k].Global() && seq(evaluateAssignedValues, 0) < seq(VarDefinition, k))
 //
 //@ func (*transpiler).evaluateVarAssignment
 //@   requires[C13] one-value-per-variable: len(assignment.Values()) == len(assignment.Variables())
-//@   loop @"range assignment.Variables()" invariant[C01,C04] pairwise-so-far: calls(evaluateExpression) == rangeindex + 1 && calls(VarDefinition) == rangeindex + 1 && forall(k, 0, rangeindex + 1, arg(evaluateExpression, k, 1) == assignment.Values()[k] && arg(evaluateExpression, k, 2) && arg(VarDefinition, k, 0) == assignment.Variables()[k].Name() && arg(VarDefinition, k, 1) == res(evaluateExpression, k, 0).firstValue() && arg(VarDefinition, k, 2) == assignment.Variables()[k].Global())
-//@   ensures[C01,C02,C04] value-k-once-into-variable-k: result == nil ==> calls(evaluateExpression) == len(assignment.Variables()) && calls(VarDefinition) == len(assignment.Variables()) && forall(k, 0, len(assignment.Variables()), arg(evaluateExpression, k, 1) == assignment.Values()[k] && arg(evaluateExpression, k, 2) && arg(VarDefinition, k, 0) == assignment.Variables()[k].Name() && arg(VarDefinition, k, 1) == res(evaluateExpression, k, 0).firstValue() && arg(VarDefinition, k, 2) == assignment.Variables()[k].Global())
+//@   loop @"range assignment.Variables()" invariant[C01,C04] value-k-into-variable-k-so-far: calls(evaluateAssignedValues) == 1 && calls(VarDefinition) == rangeindex + 1 && forall(k, 0, rangeindex + 1, arg(VarDefinition, k, 0) == assignment.Variables()[k].Name() && arg(VarDefinition, k, 1) == res(evaluateAssignedValues, 0, 0)[k] && arg(VarDefinition, k, 2) == assignment.Variables()[k].Global() && seq(evaluateAssignedValues, 0) < seq(VarDefinition, k))
+//@   ensures[C01,C02,C04] all-values-read-then-value-k-into-variable-k: result == nil ==> calls(evaluateAssignedValues) == 1 && arg(evaluateAssignedValues, 0, 1) == assignment.Values() && calls(VarDefinition) == len(assignment.Variables()) && forall(k, 0, len(assignment.Variables()), arg(VarDefinition, k, 0) == assignment.Variables()[k].Name() && arg(VarDefinition, k, 1) == res(evaluateAssignedValues, 0, 0)[k] && arg(VarDefinition, k, 2) == assignment.Variables()[k].Global() && seq(evaluateAssignedValues, 0) < seq(VarDefinition, k))
 //
 //@ func (*transpiler).evaluateVarDefinitionCallAssignment
 //@   loop @"range variables" invariant[C02,C18] position-k-to-variable-k: calls(VarDefinition) == rangeindex + 1 && calls(evaluateExpression) == 1 && forall(k, 0, rangeindex + 1, arg(VarDefinition, k, 0) == definition.Variables()[k].Name() && arg(VarDefinition, k, 1) == res(evaluateExpression, 0, 0).values[k] && arg(VarDefinition, k, 2) == definition.Variables()[k].Global())
